@@ -1184,41 +1184,101 @@ func c19(c *Ctx) {
 			r.Check(okErr, "C19.Z5", gst.Name(), "the error handed back is the request's own", c.P.Pos(rs.Pos()), "single definition: health.GetServerStatus",
 				"getServerTime can report an error for a peer that did answer (or none for one that did not): collectTime leaves such a peer's slot empty and synchronizedWithNetwork ignores it as silent — a peer about which nothing can be proven (e.g. a very slow answer) is trusted instead of making the node refuse")
 		}
-		for _, cl := range compositeLitsOf(gi, gst.Body(), pathTimesafe, "timeResult") {
-			litV := gg.VertexOf(cl)
-			st := litField(cl, "Start")
-			okS := false
-			if st != nil {
-				if d := uniqueDef(gi, gst.Node(), st); d != nil && isTimeNow(gi, d) {
-					dv := gg.VertexOf(d)
+		// the fields of the measurement, wherever they are set: in a composite literal or by assignment to a field of a
+		// timeResult (a named result, a local), also inside a deferred literal
+		type fieldDef struct {
+			field    string
+			e        ast.Expr
+			pos      ast.Node
+			deferred bool // set in a literal that is deferred: evaluated when getServerTime returns
+		}
+		var defs []fieldDef
+		isTR := func(t types.Type) bool {
+			if p, ok := t.(*types.Pointer); ok {
+				t = p.Elem()
+			}
+			return astx.IsNamed(t, pathTimesafe, "timeResult")
+		}
+		var walk func(n ast.Node, deferred bool)
+		walk = func(n ast.Node, deferred bool) {
+			ast.Inspect(n, func(m ast.Node) bool {
+				switch x := m.(type) {
+				case *ast.DeferStmt:
+					if lit, ok := ast.Unparen(x.Call.Fun).(*ast.FuncLit); ok {
+						for _, a := range x.Call.Args {
+							walk(a, deferred)
+						}
+						walk(lit.Body, true)
+						return false
+					}
+				case *ast.CompositeLit:
+					if t := gi.TypeOf(x); t != nil && isTR(t) {
+						for _, f := range []string{"Start", "End", "Result"} {
+							if e := litField(x, f); e != nil {
+								defs = append(defs, fieldDef{f, e, x, deferred})
+							}
+						}
+					}
+				case *ast.AssignStmt:
+					if len(x.Lhs) == len(x.Rhs) {
+						for i, l := range x.Lhs {
+							if se, ok := ast.Unparen(l).(*ast.SelectorExpr); ok {
+								if t := gi.TypeOf(se.X); t != nil && isTR(t) {
+									switch se.Sel.Name {
+									case "Start", "End", "Result":
+										defs = append(defs, fieldDef{se.Sel.Name, x.Rhs[i], x, deferred})
+									}
+								}
+							}
+						}
+					}
+				}
+				return true
+			})
+		}
+		walk(gst.Body(), false)
+		nS, nE, nR := 0, 0, 0
+		for _, d := range defs {
+			e := d.e
+			if dd := uniqueDef(gi, gst.Node(), e); dd != nil {
+				e = dd
+			}
+			switch d.field {
+			case "Start":
+				nS++
+				okS := false
+				if isTimeNow(gi, e) && !d.deferred {
+					dv := gg.VertexOf(e)
 					okS = reqV >= 0 && dv >= 0 && dv != reqV && gg.DominatedBy(reqV, func(x *cfgx.Vertex) bool { return x.ID == dv })
 				}
-			}
-			r.Check(okS, "C19.Z5", gst.Name(), "Start is taken before the request", c.P.Pos(cl.Pos()), "time.Now() dominating the request",
-				"Start is not a time.Now() taken before the request is sent")
-			en := litField(cl, "End")
-			okE := false
-			if en != nil {
-				e := en
-				if d := uniqueDef(gi, gst.Node(), en); d != nil {
-					e = d
-				}
+				r.Check(okS, "C19.Z5", gst.Name(), "Start is taken before the request", c.P.Pos(d.pos.Pos()), "time.Now() dominating the request",
+					"Start is not a time.Now() taken before the request is sent")
+			case "End":
+				nE++
+				okE := false
 				if isTimeNow(gi, e) {
 					ev := gg.VertexOf(e)
-					okE = reqV >= 0 && ev >= 0 && ev != reqV && gg.DominatedBy(ev, func(x *cfgx.Vertex) bool { return x.ID == reqV })
+					switch {
+					case d.deferred && ev < 0:
+						// time.Now() evaluated inside the deferred literal itself: when the function returns
+						okE = contains(d.pos, e)
+					default:
+						okE = reqV >= 0 && ev >= 0 && ev != reqV && gg.DominatedBy(ev, func(x *cfgx.Vertex) bool { return x.ID == reqV })
+					}
 				}
-			}
-			r.Check(okE, "C19.Z5", gst.Name(), "End is taken after the response", c.P.Pos(cl.Pos()), "time.Now() dominated by the request",
-				"End is not a time.Now() taken after the response was received")
-			rs := litField(cl, "Result")
-			okR := false
-			if rs != nil {
-				if se, ok := ast.Unparen(rs).(*ast.SelectorExpr); ok && se.Sel.Name == "CurrentTime" {
+				r.Check(okE, "C19.Z5", gst.Name(), "End is taken after the response", c.P.Pos(d.pos.Pos()), "time.Now() dominated by the request (or evaluated by a deferred literal)",
+					"End is not a time.Now() taken after the response was received: the round trip that is added to the bound is too short (zero when End is evaluated before the request, e.g. as the argument of a deferred call), so a peer whose answer took long hides a real offset")
+			case "Result":
+				nR++
+				okR := false
+				if se, ok := ast.Unparen(d.e).(*ast.SelectorExpr); ok && se.Sel.Name == "CurrentTime" {
 					okR = true
 				}
+				r.Check(okR, "C19.Z5", gst.Name(), "Result is the peer's reported time", c.P.Pos(d.pos.Pos()), "status.CurrentTime", "Result is not the CurrentTime reported by the peer")
 			}
-			r.Check(okR, "C19.Z5", gst.Name(), "Result is the peer's reported time", c.P.Pos(cl.Pos()), "status.CurrentTime", "Result is not the CurrentTime reported by the peer")
-			_ = litV
+		}
+		if nS == 0 || nE == 0 || nR == 0 {
+			r.Break("C19.Z5: getServerTime sets Start %d, End %d, Result %d times: the measurement was not recognised", nS, nE, nR)
 		}
 	}
 }
